@@ -72,6 +72,7 @@ def main():
     ap.add_argument("--workers", type=int, default=None)
     ap.add_argument("--list", action="store_true")
     ap.add_argument("--no-evidence", action="store_true")
+    ap.add_argument("--build-only", action="store_true", help="generate and compile the harness crate for this tier, run nothing")
     args = ap.parse_args()
     if args.prop == "replay":
         sys.exit(do_replay(args.path))
@@ -131,6 +132,12 @@ def main():
             inconclusive.append(("_build", "harness crate failed to build"))
         else:
             log("built harness crate in %.1fs" % bdt)
+            if args.build_only:
+                full = core.resolve_harness_names(ws, [])
+                missing = [j.name for j in jobs if j.name not in full]
+                log("build-only: %d harnesses compiled, %d planned names missing: %s" % (len(full), len(missing), missing[:5]))
+                ws.cleanup()
+                sys.exit(0 if not missing else 2)
             results = core.run_jobs(ws, features, jobs, workers=args.workers or plan.get("workers"))
 
         replayed = 0
